@@ -7,11 +7,11 @@ typedef enum {
 StringArray include_paths;
 bool opt_fcommon = true;
 bool opt_fpic;
+bool opt_E;
 
 static FileType opt_x;
 static StringArray opt_include;
 static StringArray opt_idirafter;
-static bool opt_E;
 static bool opt_M;
 static bool opt_MD;
 static bool opt_MMD;
@@ -430,18 +430,49 @@ static void run_cc1(int argc, char **argv, char *input, char *output) {
   run_subprocess(args);
 }
 
+// Returns true if printing `tok` directly after `prev` would make the
+// two lex differently (e.g. `-` `-1`, `x` `1`, `1.5e` `+`, `L` `"s"`).
+static bool need_space(Token *prev, Token *tok) {
+  char a = prev->loc[prev->len - 1];
+  char b = tok->loc[0];
+  bool a_word = isalnum(a) || a == '_' || a == '$' || (a & 0x80);
+  bool b_word = isalnum(b) || b == '_' || b == '$' || (b & 0x80);
+
+  if (a_word && (b_word || b == '"' || b == '\''))
+    return true;
+  if (prev->kind == TK_PP_NUM || prev->kind == TK_NUM) {
+    if (b == '.' || ((b == '+' || b == '-') && strchr("eEpP", a)))
+      return true;
+  }
+  if (a == '.' && (isdigit(b) || b == '.'))
+    return true;
+  if (b == '=' && strchr("=!<>+-*/%&|^", a))
+    return true;
+  if (a == b && strchr("+-<>&|#.", a))
+    return true;
+  if ((a == '-' && b == '>') || (a == '/' && (b == '/' || b == '*')) ||
+      (a == '<' && (b == ':' || b == '%')) || (a == '%' && (b == ':' || b == '>')) ||
+      (a == ':' && b == '>'))
+    return true;
+  return false;
+}
+
 // Print tokens to stdout. Used for -E.
 static void print_tokens(Token *tok) {
   FILE *out = open_file(opt_o ? opt_o : "-");
 
   int line = 1;
+  Token *prev = NULL;
   for (; tok->kind != TK_EOF; tok = tok->next) {
     if (line > 1 && tok->at_bol)
       fprintf(out, "\n");
-    if (tok->has_space && !tok->at_bol)
+    else if (tok->has_space && !tok->at_bol)
+      fprintf(out, " ");
+    else if (prev && !tok->at_bol && need_space(prev, tok))
       fprintf(out, " ");
     fprintf(out, "%.*s", tok->len, tok->loc);
     line++;
+    prev = tok;
   }
   fprintf(out, "\n");
 }
